@@ -4,18 +4,137 @@ import (
 	"bytes"
 	"go/ast"
 	"go/printer"
+	"go/token"
 	"go/types"
 	"sort"
+	"strings"
 )
 
+func exprText(n ast.Node) string {
+	var b bytes.Buffer
+	printer.Fprint(&b, fset, n)
+	return strings.Join(strings.Fields(b.String()), " ")
+}
+
+// terminates: the statement list certainly leaves the enclosing block (return, continue, break, goto, panic).
+func terminates(list []ast.Stmt) bool {
+	if len(list) == 0 {
+		return false
+	}
+	switch s := list[len(list)-1].(type) {
+	case *ast.ReturnStmt:
+		return true
+	case *ast.BranchStmt:
+		return s.Tok == token.CONTINUE || s.Tok == token.BREAK || s.Tok == token.GOTO
+	case *ast.ExprStmt:
+		if c, ok := s.X.(*ast.CallExpr); ok {
+			if id, ok := c.Fun.(*ast.Ident); ok && id.Name == "panic" {
+				return true
+			}
+		}
+	}
+	return false
+}
+
+// earlier: the negated conditions of the `if cond { … leave }` statements (without else) that precede stmt in list.
+func earlier(list []ast.Stmt, child ast.Node) []string {
+	var out []string
+	for _, st := range list {
+		if st == child {
+			break
+		}
+		if is, ok := st.(*ast.IfStmt); ok && is.Else == nil && terminates(is.Body.List) {
+			out = append(out, "!("+exprText(is.Cond)+")")
+		}
+	}
+	return out
+}
+
+// guardsOf: the conditions that syntactically dominate the node at the top of the stack, outermost first:
+// left operands of the `&&` (negated: `||`) chains it is a right operand of, conditions of the enclosing if / for
+// statements (negated in else branches), case expressions, and the negations of earlier leave-if-guards in the enclosing blocks.
+func guardsOf(stack []ast.Node) []string {
+	var rev [][]string
+	for k := len(stack) - 2; k >= 0; k-- {
+		a, c := stack[k], stack[k+1]
+		var g []string
+		switch a := a.(type) {
+		case *ast.FuncDecl, *ast.FuncLit:
+			k = -1
+		case *ast.BinaryExpr:
+			if a.Y == c && a.Op == token.LAND {
+				g = []string{exprText(a.X)}
+			} else if a.Y == c && a.Op == token.LOR {
+				g = []string{"!(" + exprText(a.X) + ")"}
+			}
+		case *ast.IfStmt:
+			if a.Body == c {
+				g = []string{exprText(a.Cond)}
+			} else if a.Else == c {
+				g = []string{"!(" + exprText(a.Cond) + ")"}
+			}
+		case *ast.ForStmt:
+			if a.Body == c && a.Cond != nil {
+				g = []string{"for " + exprText(a.Cond)}
+			}
+		case *ast.RangeStmt:
+			if a.Body == c {
+				h := "range " + exprText(a.X)
+				if a.Key != nil {
+					h = exprText(a.Key) + " := " + h
+				}
+				g = []string{h}
+			}
+		case *ast.BlockStmt:
+			g = earlier(a.List, c)
+		case *ast.CaseClause:
+			isBody := false
+			for _, st := range a.Body {
+				if st == c {
+					isBody = true
+				}
+			}
+			if isBody {
+				var es []string
+				for _, e := range a.List {
+					es = append(es, exprText(e))
+				}
+				if a.List == nil {
+					es = []string{"default"}
+				}
+				g = append([]string{"case " + strings.Join(es, ", ")}, earlier(a.Body, c)...)
+			}
+		case *ast.SwitchStmt:
+			if a.Tag != nil && a.Body == c {
+				g = []string{"switch " + exprText(a.Tag)}
+			}
+		}
+		if len(g) > 0 {
+			rev = append(rev, g)
+		}
+	}
+	var out []string
+	for k := len(rev) - 1; k >= 0; k-- {
+		out = append(out, rev[k]...)
+	}
+	return out
+}
+
 // indexSites: every index and slice expression on a string, slice or array in the non-test code
-// (map look-ups and generic instantiations excluded), as "pkg.func|expression".  C17 pins this list:
-// each site is audited against a guard or a proved precondition (Props/C17.lean).
+// (map look-ups and generic instantiations excluded), as "pkg.func|expression|guards", the guards being the
+// conditions that syntactically dominate the expression (guardsOf).  C17 pins this list: each site is audited
+// against its guards or a proved precondition (Props/C17.lean); a dropped, weakened or reordered guard changes the fact.
 func indexSites(pkgs map[string]*pkgInfo) {
 	var sites []string
 	for _, p := range pkgs {
 		for _, f := range p.files {
+			var stack []ast.Node
 			ast.Inspect(f, func(n ast.Node) bool {
+				if n == nil {
+					stack = stack[:len(stack)-1]
+					return true
+				}
+				stack = append(stack, n)
 				var x ast.Expr
 				switch e := n.(type) {
 				case *ast.IndexExpr:
@@ -44,14 +163,12 @@ func indexSites(pkgs map[string]*pkgInfo) {
 				default:
 					return true
 				}
-				var b bytes.Buffer
-				printer.Fprint(&b, fset, n.(ast.Expr))
-				sites = append(sites, p.name+"."+enclosingFunc(f, n.Pos())+"|"+b.String())
+				sites = append(sites, p.name+"."+enclosingFunc(f, n.Pos())+"|"+exprText(n)+"|"+strings.Join(guardsOf(stack), " ; "))
 				return true
 			})
 		}
 	}
 	sort.Strings(sites)
 	add("cors_indexSites", ": List Bytes := "+leanBytesList(sites),
-		"every index / slice expression on a string, slice or array in the non-test code: pkg.func|expression (sorted)")
+		"every index / slice expression on a string, slice or array in the non-test code with its dominating conditions: pkg.func|expression|guards (sorted)")
 }
